@@ -18,6 +18,9 @@ import MJ.Model.OutputEmit
            value the engine popped; `flat`: `flatten (toProg psyn)` equals the real operations)
 `case<TAB>pid api script`   — `script` = comma separated `A` `S<k>` `H` `E<kind>.<id>`, each
                               optionally `*<n>` (`-` = empty): behaviour of the sink per call
+                              `E<kind>.<id>.<form>`: how the sink built the error (`parseForm`); the
+                              answer's `res=wf:<kind>:<id>:<form>` is the token the model's boundary
+                              returns as source — the harness reads the same three off the real error
    answer: `calls= acc= sum= dig= res= ops=<operations executed>`; for structured programs the
    answer is computed by the big-step `exec` of the `Prog` term, otherwise by `run` on the real ops.
 -/
@@ -121,7 +124,9 @@ inductive PSyn where
   | text (s : Bytes)                      -- `T<hex>`        raw template text
   | set (v : Nat) (body : List PSyn)      -- `S<v>(` … `)`   {% set v %}…{% endset %}
   | use (v : Nat) (x : Xf)                -- `U<v><x>`       {{ v }} / {{ v|upper }} / {{ v|lower }}
-  | filt (x : Xf) (body : List PSyn)      -- `F<x>(` … `)`   capture the body, emit x(value): filter block, macro call, `super()|x`
+  | filt (x : Xf) (body : List PSyn)      -- `F<x>(` … `)`   capture the body, emit x(value): filter block, `super()|x`
+  | mac (x : Xf) (body : List PSyn)       -- `M<x>(` … `)`   evaluate the body on an `Output` of its own, emit x(value): macro call, `caller()`
+  | callfn (body : List PSyn)             -- `R(` … `)`      a template function renders a block (= body) on an `Output` of its own, returns ""
   | nest (w : Wrap) (body : List PSyn)    -- `N0(`/`N1(` … `)` include / super()
   | disc (body : List PSyn)               -- `D(` … `)`      output of the child template of an `extends`
   | loop (n : Nat) (body : List PSyn)     -- `L<n>(` … `)`   {% for _ in range(n) %}
@@ -148,9 +153,13 @@ partial def parsePSeq : List String → List PSyn × List String
       else if t.startsWith "F" then
         let (b, r) := parsePSeq rest
         (.filt (parseXf ((t.drop 1).toString.dropEnd 1).toString) b, r)
+      else if t.startsWith "M" then
+        let (b, r) := parsePSeq rest
+        (.mac (parseXf ((t.drop 1).toString.dropEnd 1).toString) b, r)
       else if t = "N0(" then let (b, r) := parsePSeq rest; (.nest .badInclude b, r)
       else if t = "N1(" then let (b, r) := parsePSeq rest; (.nest .evalBlock b, r)
       else if t = "D(" then let (b, r) := parsePSeq rest; (.disc b, r)
+      else if t = "R(" then let (b, r) := parsePSeq rest; (.callfn b, r)
       else if t.startsWith "L" then
         let (b, r) := parsePSeq rest
         (.loop (((t.drop 1).toString.dropEnd 1).toString.toNat?.getD 0) b, r)
@@ -176,6 +185,11 @@ partial def toProg (items : List PSyn) (env : Env) (k : Env → Prog) : Prog :=
   | .filt x body :: rest =>
     .capture false (toProg body env fun _ => .skip) fun val =>
       .seq (.emit (.str (x.apply (val.getD [])))) (toProg rest env k)
+  | .mac x body :: rest =>
+    .own .string (toProg body env fun _ => .skip) fun val =>
+      .seq (.emit (.str (x.apply val))) (toProg rest env k)
+  | .callfn body :: rest =>
+    .own .string (toProg body [] fun _ => .skip) fun _ => .seq (.emit (.str [])) (toProg rest env k)
   | .nest w body :: rest => .seq (.nested w (toProg body env fun _ => .skip)) (toProg rest env k)
   | .disc body :: rest => .capture true (toProg body env fun _ => .skip) fun _ => toProg rest env k
   | .loop n body :: rest =>
@@ -202,16 +216,46 @@ def kindCode : IoKind → Nat
     that call exactly like an error does; the driver reports the result as `panic` -/
 def panicId : Nat := 999983
 
+/-- how the sink built its io::Error (third field of an `E` token; `s` when absent) -/
+def parseForm (f : String) (k : IoKind) (id : Nat) : Option Payload :=
+  if f = "s" then some .msg
+  else if f = "k" then some .bare
+  else if f = "r" then some (.os id)
+  else if f = "c" then some .custom
+  else if f = "mi" then some (.engine (.leaf .invalidOperation))
+  else if f = "mu" then some (.engine (.leaf .undefinedError))
+  else if f = "mw" then some (.engine (.leaf .writeFailure))
+  else if f = "mt" then some (.engine (.leaf .templateNotFound))
+  else if f = "mc" then some (.engine (.chain .invalidOperation (.leaf .undefinedError)))
+  else if f = "mx" then some (.engine (.overIo .writeFailure k id))
+  else if f = "i" then some (.io .other .msg)
+  else none
+
+def formName : Payload → String
+  | .msg => "s" | .bare => "k" | .os _ => "r" | .custom => "c"
+  | .engine (.leaf .invalidOperation) => "mi"
+  | .engine (.leaf .undefinedError) => "mu"
+  | .engine (.leaf .writeFailure) => "mw"
+  | .engine (.leaf .templateNotFound) => "mt"
+  | .engine (.chain _ _) => "mc"
+  | .engine (.overIo _ _ _) => "mx"
+  | .engine _ => "m?"
+  | .io _ _ => "i"
+
 def parseBeh (t : String) : Option Beh :=
   if t = "A" then some .all
-  else if t = "P" then some (.err ⟨.other, panicId⟩)
+  else if t = "P" then some (.err ⟨.other, panicId, .msg⟩)
   else if t = "H" then some .half
   else if t.startsWith "S" then (t.drop 1).toString.toNat?.map Beh.accept
   else if t.startsWith "E" then
     match (t.drop 1).toString.splitOn "." with
     | [k, id] =>
       match kindOf k, id.toNat? with
-      | some k, some id => some (.err ⟨k, id⟩)
+      | some k, some id => some (.err ⟨k, id, .msg⟩)
+      | _, _ => none
+    | [k, id, f] =>
+      match kindOf k, id.toNat? with
+      | some k, some id => (parseForm f k id).map fun pl => .err ⟨k, id, pl⟩
       | _, _ => none
     | _ => none
   else none
@@ -250,7 +294,8 @@ def digest (cs : List Call) : Nat :=
 def showRes : Chk (Except Err Unit) → String
   | .panic => "panic"
   | .ok (.ok ()) => "ok"
-  | .ok (.error (.writeFailure (some e))) => if e.id = panicId then "panic" else s!"wf:{kindName e.kind}:{e.id}"
+  | .ok (.error (.writeFailure (some e))) =>
+    if e.id = panicId then "panic" else s!"wf:{kindName e.kind}:{e.id}:{formName e.payload}"
   | .ok (.error (.writeFailure none)) => "wfnone"
   | .ok (.error _) => "other"
 
@@ -337,7 +382,9 @@ def answer (cur : Cur) (script : List Beh) : String :=
 /-- `clean`: the real run completed (otherwise the real operations, ending with the failure, only
     have to be a prefix of the flattening: nothing after the failure is executed) -/
 def flatVerdict (p : Prog) (real : List Op) (clean : Bool) : String :=
-  let f := flatten p
+  -- which error ends the run is not part of the operation log (the harness only says that the run
+  -- failed): an error that comes out of an `Output` of its own arrives wrapped already
+  let f := (flatten p).map fun o => match o with | .fail _ => Op.fail (.other 0) | o => o
   let eq (a b : List Op) : Bool := if clean then a == b else b.isPrefixOf a
   if eq f real then "same"
   else if eq (erase 0 f) (erase 0 real) then "erased-same"
